@@ -2814,6 +2814,7 @@ namespace Clipper2Lib {
 
   void ClipperBase::Split(Active& e, const Point64& pt)
   {
+    CLIPPER2_VERIF_AEL(verif::kSplit, this, &e);
     if (e.join_with == JoinWith::Right)
     {
       e.join_with = JoinWith::NoJoin;
@@ -2854,6 +2855,7 @@ namespace Clipper2Lib {
       JoinOutrecPaths(*prev, e);
     prev->join_with = JoinWith::Right;
     e.join_with = JoinWith::Left;
+    CLIPPER2_VERIF_AEL(verif::kJoin, this, prev);
   }
 
   void ClipperBase::CheckJoinRight(Active& e,
@@ -2883,6 +2885,7 @@ namespace Clipper2Lib {
 
     e.join_with = JoinWith::Right;
     next->join_with = JoinWith::Left;
+    CLIPPER2_VERIF_AEL(verif::kJoin, this, &e);
   }
 
   inline bool GetHorzExtendedHorzSeg(OutPt*& op, OutPt*& op2)
